@@ -951,7 +951,7 @@ def _script_code(spec: gw.InputSpec, psbt_in: Any) -> bytes:
     if shape in ("wpkh", "sh-wpkh"):
         program = spec.script_pub_key if shape == "wpkh" else psbt_in.redeem_script
         return b"\x76\xa9\x14" + program[2:] + b"\x88\xac"
-    return psbt_in.redeem_script if shape == "sh-multi" else psbt_in.witness_script
+    return psbt_in.redeem_script if shape in ("sh-multi", "sh-pkh") else psbt_in.witness_script
 
 
 def _digests_before(ctx: Ctx, cer: gw.Ceremony) -> Digests:
